@@ -1,0 +1,30 @@
+// Verification contracts (comment-only, compiled only with the "verif" build tag; read by /verif/govc).
+
+//go:build verif
+// +build verif
+
+package params
+
+// Property C08: role -> kind table and the token -> stake conversion.
+
+// The package-level table `kinds` as initialised (package initialisation is not modelled; nothing writes the table).
+//@ spec func c08ParamsKindsTable() bool =
+//@     in(RoleChancellor, kinds) && in(RoleSenator, kinds) && in(RoleHouse, kinds) &&
+//@     kinds[RoleChancellor] == KindChamber && kinds[RoleSenator] == KindChamber && kinds[RoleHouse] == KindHouse
+
+//@ func KindOfRole props C08
+//@ panics none
+//@ requires c08ParamsKindsTable()
+//@ pure
+//@ ensures [chamber] (role == RoleChancellor || role == RoleSenator) ==> result0 == KindChamber && result1
+//@ ensures [house]   role == RoleHouse ==> result0 == KindHouse && result1
+//@ ensures [unknown] !result1 ==> result0 == KindValidator
+
+// "every stake equals the token amount divided by the stake unit": floor division by the (positive) unit.
+// StakeUint is a package variable initialised to 1 YOU = 10^18 LU; nothing writes it. Its positivity is a precondition here.
+//@ func YOUToStake props C08
+//@ panics none
+//@ requires token != nil && StakeUint != nil && big(StakeUint) > 0
+//@ modifies nothing
+//@ ensures [floor-div] fresh(result) && big(result) == ediv(big(token), big(StakeUint))
+//@ ensures [floor] big(result) * big(StakeUint) <= big(token) && big(token) < (big(result) + 1) * big(StakeUint)
